@@ -295,6 +295,15 @@ def run(ctx):
   g, facts = std_facts(prog, mt)
   p = mt.params[1]
   walk_start = [n for n in g.live_nodes() if n.kind == 'stmt' and isinstance(n.ast, ast.Assign) and u(n.ast.value) == 'self._selector_tree']
+  if not walk_start:
+    # the walk may live in a helper method of the map: then the call of that helper is the start of the walk
+    for n in g.live_nodes():
+      for cc in calls_of_node(n):
+        q_ = prog.resolve_call(mt, cc)
+        hf = prog.ix.get(q_) if q_ else None
+        if hf is not None and q_.startswith(sm.qual + '.') and hasattr(hf, 'node') and hasattr(hf, 'params') \
+            and any(isinstance(x, ast.Attribute) and x.attr == '_selector_tree' for x in walk_local(hf.node)):
+          walk_start.append(n)
   ok = bool(walk_start) and all(('c', '%s in self._selector_map' % p, False) in facts[n.id] for n in walk_start)
   exact = [n for n in g.live_nodes() if n.kind == 'return' and ('c', '%s in self._selector_map' % p, True) in facts[n.id]]
   ok = ok and bool(exact) and all(u(n.ast.value) == '[%s]' % p for n in exact)
